@@ -49,8 +49,11 @@ type World struct {
 	usedContracts  map[string]*Contract
 	topContract    *Contract
 	topFrame       *Frame
-	forgetMark     int // script position before which assertions are dropped from later queries (opt forget-before-loop)
-	curLoopKeys    map[string]bool // heap keys the loop whose head is being processed may write
+	unrollN        int // > 0: bounded stand-in, loops are unrolled (see unrollLoop)
+	unrollCuts     int
+	skipClause     map[*Clause]bool // helper invariants set aside because they no longer fit the code
+	forgetMark     int              // script position before which assertions are dropped from later queries (opt forget-before-loop)
+	curLoopKeys    map[string]bool  // heap keys the loop whose head is being processed may write
 	splits         []Term
 	quantFacts     []quantFact
 	rawFacts       []rawFact // universally quantified facts of the memory model (append), instantiated like quantFacts
@@ -729,8 +732,8 @@ type Obligation struct {
 	Star         bool
 	Kind         string // ensures | call.pre | loop.init | loop.step | frame | lemma | nopanic | smoke | vacuity
 	Goal         Term
-	Mark         int // script prefix length
-	Sliced       bool // the query was reduced to the assumptions connected to the goal
+	Mark         int    // script prefix length
+	Sliced       bool   // the query was reduced to the assumptions connected to the goal
 	Parts        []Term // the goal's top-level conjuncts (each with the path condition): proved one by one when the whole does not answer
 	Splits       []Term // case distinctions suggested by the goal (a quantified index equal to / below its upper bound)
 	Prelude      string
@@ -796,7 +799,7 @@ func (w *World) skolemGoal(env *CEnv, e *CExpr) Term {
 	var extraWitnesses []Term
 	var localSplits []Term
 	var prioWitnesses []Term // witnesses named by instances at the goal's own skolem constants
-	var strSks []Term // String-sorted skolem constants (keys of maps)
+	var strSks []Term        // String-sorted skolem constants (keys of maps)
 	var walk func(env *CEnv, e *CExpr) Term
 	walk = func(env *CEnv, e *CExpr) Term {
 		switch {
